@@ -220,10 +220,14 @@ def judge_c05(scn, result):
             return cbs[int(h)][int(k)][idx]
         return threads[int(label)][idx]
 
+    began = {(str(t), int(k)): pos for pos, t, k in result.get("begs", [])}
     for i, f in enumerate(hist):
         if f[0] != "ret" or f[3] != "ok":
             continue
         op = op_of(f[1], int(f[2]))
+        # a registering call that returns after the removing call BEGAN overlaps it (or follows it): it may take effect
+        # after the removal (linearisation), exactly like one that returns later
+        i0 = began.get((f[1], int(f[2])), i + 1)
         removed = None
         if op[0] == "unschedule":
             removed = (None, op[1])
@@ -238,7 +242,7 @@ def judge_c05(scn, result):
             if g[0] == "enq" and g[1] != "STOP" and removed[0] is None and (removed[1] is None or removed[1] == int(g[1])):
                 # the emitter of an unscheduled watch has stopped producing events
                 resched = any(r[0] == "ret" and r[3] == "ok" and op_of(r[1], int(r[2]))[0] in ("schedule", "start")
-                              for r in hist[i + 1:])
+                              for r in hist[min(i0, i + 1):])
                 if not resched:
                     return f"emitter of watch {g[1]} queued an event after {op} had returned (history positions {i} < {j})"
             if g[0] == "call":
@@ -246,7 +250,7 @@ def judge_c05(scn, result):
                 if (removed[0] is None or removed[0] == h) and (removed[1] is None or removed[1] == w):
                     # legit only if some registering call for (h, w) returns after i
                     rereg = False
-                    for k in range(i + 1, len(hist)):
+                    for k in range(min(i0, i + 1), len(hist)):
                         r = hist[k]
                         if r[0] == "ret" and r[3] == "ok":
                             o = op_of(r[1], int(r[2]))
@@ -382,6 +386,10 @@ def run(res, tier, lean, prop="C04", proof_breaks=(), build_log=""):
             # line-level preemption: races inside what the model treats as one step
             run_lp = obs_scenario.make_run(scn, line_preempt=True)
             runs += list(explore.random_runs(run_lp, r, 150, 0.1))
+            # one thread parked at one line while the others run on (every thread, every line it reaches)
+            runs += list(explore.park_runs(run_lp, 300))
+            # long uninterrupted stretches with rare switches (a whole API call fits between two lines of another thread)
+            runs += list(explore.random_runs(run_lp, r, 400, 0.02))
             for sched, result in runs:
                 searched += 1
                 for jf in judges:
